@@ -400,7 +400,11 @@ make_fn!(
         pos => pos,
         _ => punct!("("),
         expr => do_each!(
-            expr => trace_parse!(expression),
+            // Nothing but a grouped expression starts with a parenthesis.
+            // When what follows it is not an expression then no alternative
+            // will do better, and trying them parses the nested input again
+            // at every level: exponential in the depth.
+            expr => must!(trace_parse!(expression)),
             _ => must!(punct!(")")),
             (expr)
         ),
